@@ -368,6 +368,52 @@ func wnWorkload(ctx *core.Ctx, judge func(cs *core.Case, env *Env, d *wnDoc, out
 		}
 		cs.Flush(lc)
 	})
+	// deep chains: 65-300 nested elements of one or two kinds (depth thresholds in the drop stack,
+	// the skip counter or any per-level bookkeeping)
+	ctx.Run("deep-chains", ctx.N(120, 1200), func(cs *core.Case) {
+		env := NewEnv(fixed[cs.Index%len(fixed)])
+		r := cs.R
+		lc := core.LocalCounts{}
+		kinds := []string{"a", "b", "x", "object", "my-x", "p", "a+href", "img", "span", "iframe-not"}
+		for i := 0; i < 12; i++ {
+			depth := 65 + r.Intn(240)
+			k1, k2 := kinds[r.Intn(len(kinds))], kinds[r.Intn(len(kinds))]
+			mk := 0
+			var build func(d int) []*wnNode
+			build = func(d int) []*wnNode {
+				mk++
+				leaf := &wnNode{text: fmt.Sprintf("zqmk%06d", mk)}
+				if d == 0 {
+					return []*wnNode{leaf}
+				}
+				name := k1
+				if d%3 == 0 {
+					name = k2
+				}
+				nd := &wnNode{name: name}
+				switch name {
+				case "a+href":
+					nd = &wnNode{name: "a", attrs: [][2]string{{"href", "http://example.org/"}}}
+				case "img":
+					return append([]*wnNode{{name: "img"}}, build(d-1)...)
+				case "iframe-not":
+					nd = &wnNode{name: "section"}
+				}
+				nd.kids = build(d - 1)
+				if d%7 == 0 {
+					return []*wnNode{leaf, nd}
+				}
+				return []*wnNode{nd}
+			}
+			d := env.wnRender(r, build(depth), 0)
+			out := SanitizeVia(env.Pol, d.src, i)
+			cs.Eval()
+			lc["deep_chains"]++
+			judge(cs, env, &d, out, lc)
+			cs.Nontrivial(core.Hash("deep", fmt.Sprint(cs.Index, i)))
+		}
+		cs.Flush(lc)
+	})
 	// exhaustive small trees
 	maxN := ctx.N(4, 5)
 	for pi, ops := range fixed[:4] {
